@@ -83,7 +83,7 @@ def snapshot_diff(a, b) -> str:
 
 
 # ---------------------------------------------------------------- generation --------------------------
-NOISE = ["to_sql", "sql_exec", "repr", "to_python", "columns_used", "describe_table", "derive", "derive"]
+NOISE = ["to_sql", "sql_exec", "repr", "to_python", "columns_used", "describe_table", "derive", "derive", "record_map"]
 
 
 def generate(run_seed: int, cfg: Dict[str, Any]) -> Dict[str, Any]:
@@ -108,8 +108,7 @@ def generate(run_seed: int, cfg: Dict[str, Any]) -> Dict[str, Any]:
         # a second batch of data for the same table name (same columns): evaluations alternate between the two
         nb = rd.choice([1, 2, 3, 5, 8])
         if "blocks" in tables[nm]:
-            tables_b[nm] = W.gen_block_table(rd, nm, n_rows=nb * len(tables[nm]["blocks"]["labels"]),
-                                             labels=tables[nm]["blocks"]["labels"])
+            tables_b[nm] = W.gen_block_table(rd, nm, n_rows=nb * len(tables[nm]["blocks"]["labels"]), like=tables[nm]["blocks"])
         else:
             tables_b[nm] = W.gen_table(rd, nm, n_rows=nb, shape=shape)
     n_pipes = rk.choice([2, 3, 4, 6])
@@ -402,6 +401,18 @@ def _run(scn, log: EventLog, stats: Stats):
                             o.to_python(pretty=True)
                         elif w == "columns_used":
                             o.columns_used()
+                        elif w == "record_map":
+                            # the record map of a leading convert_records step applied to the caller's frames directly
+                            st0 = pipe["steps"][0] if pipe["steps"] else None
+                            if st0 is not None and st0["t"] == "convert_records":
+                                rm = W.record_map_of(st0)
+                                for fr in (pool["pd:" + tabs[0] + ":0"], pool["pl:" + tabs[0] + ":1"]):
+                                    for how in (lambda: rm.transform(fr), lambda: fr >> rm, lambda: rm.act_on(fr)):
+                                        try:
+                                            how()
+                                            stats.probe("record-map-applied-directly")
+                                        except Exception:
+                                            stats.probe("record-map-applied-directly:raised")
                         elif w == "derive":
                             stats.probe("derived-pipelines-built", _derive(o))
                         elif w == "describe_table":
@@ -630,7 +641,7 @@ TIERS = {
 RULE = ("one evaluation = one seeded scenario: a pool of caller-owned frames (1-3 tables x {Pandas with a seeded index "
         "labelling, Polars eager or lazy}, also captured by reference via data()/descr()), 2-6 pipelines of up to 6 steps "
         "from the C18 generator, and a history of 8-30 (thorough: 8-40) operations by 2-3 interleaved clients: eval / "
-        "transform / >> / ex() on Pandas and Polars, SQL generation and execution, repr/to_python/columns_used, building (and discarding) derived pipelines on top of a live pipeline object, "
+        "transform / >> / ex() on Pandas and Polars, SQL generation and execution, repr/to_python/columns_used, building (and discarding) derived pipelines on top of a live pipeline object, applying a record map to the frames directly, "
         "describe_table; odd run-seeds abort 10-35% of the evaluations at a chosen executor call-back (F4) and let clients "
         "mutate, in place, result frames they were handed earlier (F6). After "
         "every operation all pool frames are compared with their creation snapshots and every result with the first "
